@@ -49,7 +49,12 @@ def content_catalog(rng, po_only_features=True):
         elif r < 0.5:
             e['msgstr'] = dst + rng.choice([' \x7f', ' �', ' \x01'])
         elif r < 0.6:
+            # a context (and sometimes a msgid) with non-ASCII text that a diagnostic quotes: decoding differences become visible
             e['msgctxt'] = rng.choice(['menu', 'ctx ąę', 'PÓŁNOC', 'CÓŻ'])
+            if rng.random() < 0.7:
+                e['msgstr'] = dst + '\n'
+            if rng.random() < 0.4:
+                e['msgid'] = rng.choice(['PÓŁNOC', 'CÓŻ to', 'ÓŁ']) + ' %d' % i
         elif r < 0.7:
             e = {'msgid': src, 'msgid_plural': src + 's', 'msgstr_plural': [dst, dst + ' b', dst + ' c'][:rng.choice([2, 3, 3])]}
             if po_only_features and rng.random() < 0.3:
